@@ -54,7 +54,7 @@ PROPS = {
    'restore_finds_issued', 'state_of_spent_forever', 'sig_forever']),
  'C16': ("Reported balances are exact and configured limits are enforced", [
    'balance_never_negative', 'step_bi', 'binv_bound', 'honest_history_ok', 'admin_total_is_total_balance', 'admin_issued_view', 'admin_redeemed_view',
-   'issued_view_total', 'redeemed_view_total', 'total_balance_exact', 'signatures_are_exactly_what_was_returned',
+   'issued_view_total', 'redeemed_view_total', 'total_balance_exact', 'total_balance_overflow_fails', 'signatures_are_exactly_what_was_returned',
    'mint_limit_enforced', 'melt_limit_enforced', 'melt_amount_must_fit', 'balance_limit_enforced', 'huge_quote_refused', 'info_disabled_iff']),
 }
 
